@@ -338,6 +338,11 @@ func clientMergeRule(c *an.Ctx) {
 					vt := fi.Term(x.Value)
 					if vt.K == an.KLoad {
 						banned = fi.ResolveLocalField(vt, "Banned", x)
+					} else if vt.K == an.KStruct {
+						// built by a straight-line helper (term-level inlining)
+						if b := fi.FieldOfTerm(vt, "Banned"); b != nil && b.K != an.KField {
+							banned = b
+						}
 					}
 					okM := false
 					if banned != nil {
